@@ -260,7 +260,10 @@ auto ramalhete_queue<T, Policies...>::pop() -> std::optional<value_type> {
     }
 
     // (11) - this release-fetch-add synchronizes with the acquire-load (10)
-    unsigned idx = h->pop_idx.fetch_add(step_size, std::memory_order_release);
+    //        The acquire part is required in case the node turns out to be drained: it synchronizes-with the
+    //        fetch-add of the thread that took the last entry, so that the subsequent load of next observes
+    //        a node that this thread has appended before (otherwise we might falsely report an empty queue).
+    unsigned idx = h->pop_idx.fetch_add(step_size, std::memory_order_acq_rel);
     if (idx >= max_idx) {
       // This node has been drained, check if there is another one
       // (12) - this acquire-load synchronizes-with the release-CAS (4)
